@@ -17,6 +17,7 @@ Trace lines (harness/netsim).  Case header: `<c04|c13|c15|c17> <name> ...`.
   asked <i>                               => getheaders <0|1> … lied <0|1>
   stop                                    => ok | HANG
   banpeer <i> / after                     => ok|err / <sample observation>                 (c13)
+  misbehaved <i>                          => lied <n> <ip|nonip>   peer i has served a provably false message   (c13)
   release <i>                             => held | not-held   peer i completes its version handshake now   (c13)
   peerip / isbanned / ban / unban / redial  see harness/netsim/c13ops.go                      (c13s)
   sendtx / saw <i>                        => ok|err|HANG / invtx <0|1>                      (c15)
@@ -169,6 +170,7 @@ def runC13 (c : CaseIn) : Array String := Id.run do
   let mut out : Array String := #[]
   let mut bannedBy : Option Nat := none
   let mut released : Option Nat := none   -- the peer that finished its version handshake only after the ban
+  let mut misbehaved : List (Nat × Bool) := []   -- (peer, its address is not an IP literal)
   for (ln, line) in c.lines do
     let (op, obs) := splitObs line
     let ws := words op
@@ -176,11 +178,20 @@ def runC13 (c : CaseIn) : Array String := Id.run do
     | "peer" :: _ => if let some px := parsePeer ws obs then peers := peers ++ [px]
     | ["banpeer", i] => bannedBy := some (nat! i)
     | ["release", i] => released := some (nat! i)
+    | ["misbehaved", i] =>
+      -- `lied <n> <ip|nonip>`: the peer served a provably false message; nonip: its address is not an IP literal
+      match words obs with
+      | ["lied", n, kind] => if n != "0" then misbehaved := misbehaved ++ [(nat! i, kind == "nonip")]
+      | _ => pure ()
     | ["after"] =>
       match parseObs (words obs) with
       | some (o, _) =>
         let bad := o.conn.filter (o.banned.contains ·)
-        if o.banned.isEmpty then
+        -- a peer caught lying is dropped, also when its address admits no ban record
+        for (i, _) in misbehaved do
+          if o.conn.contains i then
+            out := out.push s!"ORACLE-FAIL C13 case {c.num} line {ln}: shape=misbehaving-peer-still-connected peer {i} served a provably false message and is still connected: {obs}"
+        if o.banned.isEmpty && !(!misbehaved.isEmpty && misbehaved.all (·.2)) then
           out := out.push s!"ORACLE-FAIL C13 case {c.num} line {ln}: shape=misbehaving-peer-not-banned nobody is banned after the ban event: {obs}"
         for i in bad do
           -- the peer the ban was aimed at: named by `banpeer`, else the lowest banned index
